@@ -318,3 +318,77 @@ def run(V, tier, want, cfg="Layouts_cli.cfg"):
                                 V.violation(e4, "callHierarchy/outgoingCalls differs from resolution and from the model")
     shutil.rmtree(base, ignore_errors=True)
     return len(shapes), meta
+
+
+def large_workspace(V, tier):
+    """C08 'in a new process': ONE large workspace (several hundred fixtures over a dozen files, names sharing prefixes, some names
+    defined in several files) served by several FRESH server processes with different worker counts; every process must give
+    the same answer to workspace/symbol (several queries), documentSymbol and code lenses, and workspace/symbol with the empty
+    query must list every definition of the workspace exactly once."""
+    import shutil
+    C.build_server()
+    base = os.path.join(C.BUILD, "ws", "c08big-%d" % os.getpid())
+    shutil.rmtree(base, ignore_errors=True)
+    nfiles, per = (12, 40) if tier == "quick" else (30, 60)
+    want = []
+    for f in range(nfiles):
+        d = os.path.join(base, "pkg%d" % (f % 4))
+        os.makedirs(d, exist_ok=True)
+        name = "conftest.py" if f < 4 else "test_mod%d.py" % f
+        lines = ["import pytest", "", ""]
+        for k in range(per):
+            fx = "fixture_%02d_%03d" % (f, k) if k % 5 else "shared_fixture_%03d" % k      # every 5th name is defined in every file
+            lines += ["@pytest.fixture", "def %s():" % fx, "    return %d" % k, "", ""]
+            want.append((os.path.join("pkg%d" % (f % 4), name), len(lines) - 3, fx))
+        lines += ["def test_uses_%d(fixture_%02d_001, shared_fixture_000):" % (f, f), "    pass", ""]
+        with open(os.path.join(d, name), "w") as fh:
+            fh.write("\n".join(lines))
+    want.sort()
+
+    def session(threads):
+        srv = lsp.Server(timeout=60, env={"RAYON_NUM_THREADS": str(threads)})
+        try:
+            srv.initialize(base)
+            out = {}
+            for q in ("", "fixture", "shared", "fixture_03", "zzz"):
+                syms = srv.request("workspace/symbol", {"query": q}) or []
+                out["symbol %r" % q] = sorted((os.path.relpath(lsp.uri_to_path(x["location"]["uri"]), base),
+                                               x["location"]["range"]["start"]["line"] + 1, x["name"]) for x in syms) \
+                    if isinstance(syms, list) else syms
+            p0 = os.path.join(base, "pkg0", "conftest.py")
+            ds = srv.doc_request("textDocument/documentSymbol", p0) or []
+            out["documentSymbol"] = sorted((x["name"], x["selectionRange"]["start"]["line"]) for x in ds) if isinstance(ds, list) else ds
+            cl = srv.doc_request("textDocument/codeLens", p0) or []
+            out["codeLens"] = sorted((x["range"]["start"]["line"], (x.get("command") or {}).get("title")) for x in cl) if isinstance(cl, list) else cl
+            return out
+        except (lsp.ServerDied, lsp.Timeout) as e:
+            return {"error": str(e)}
+        finally:
+            srv.close()
+
+    procs = [1, 2, 4, 16] if tier == "quick" else [1, 2, 3, 4, 8, 16, 16, 16]
+    results = lsp.run_parallel(procs, session, workers=4)
+    shutil.rmtree(base, ignore_errors=True)
+    n = 0
+    for t, r in zip(procs, results):
+        V.count()
+        n += 1
+        if r is None or "__exception__" in r:
+            raise C.ToolError("LSP session failed: %r" % (r,))
+        ex = {"workspace": "%d files x %d fixtures" % (nfiles, per), "RAYON_NUM_THREADS": t}
+        if "error" in r:
+            V.violation(dict(ex, error=r["error"]), "server died or stopped answering on a large workspace")
+            continue
+        if r["symbol ''"] != [tuple(x) for x in want] and r["symbol ''"] != want:
+            got = [tuple(x) for x in r["symbol ''"]]
+            missing = [x for x in want if tuple(x) not in set(got)]
+            V.violation(dict(ex, listed=len(got), definitions=len(want), missing=missing[:10],
+                             duplicates=len(got) - len(set(got))),
+                        "workspace/symbol (empty query) does not list every definition of a large workspace exactly once")
+        for k in sorted(r):
+            if r[k] != results[0][k]:
+                V.violation(dict(ex, request=k, this_process=str(r[k])[:600], first_process=str(results[0][k])[:600]),
+                            "two fresh server processes answer the same request on the same workspace differently")
+                break
+    V.nontriv("c08 large workspace")
+    return n
